@@ -273,6 +273,10 @@ func c12Closure(c *Ctx, fn *ssa.Function, short string, std bool) {
 		case *ssa.Store:
 			if _, ok := x.Addr.(*ssa.FreeVar); ok && isErrorType(x.Val.Type()) {
 				writes[x.Block()] = true
+				// the error recorded for one flag is not wiped by the next: only a non-nil error is ever recorded
+				okNN := nonNilByConstruction(x.Val) || knownNil(x.Block(), x.Val, false)
+				c.check(okNN, "visited-flags-written", short+"#error-kept", x.Pos(), "the captured error variable is only ever assigned a non-nil error",
+					"the Visit callback assigns the captured error variable a possibly-nil value: the error recorded for one flag (out of range, not convertible) is overwritten by nil when a later-visited flag is fine, and the bad flag is silently dropped")
 			}
 		}
 	}
